@@ -189,9 +189,12 @@ def r6_independent_of_other_holders(chk, fx):
     chk.floor("C18/R6 Session::recv / rpc bodies", n, 3)
     it = fx.fn_item(SESSION + "::recv")
     weak = [t for t in (it.get("inputs") or []) if "Weak<" in t]
-    shared = [t for t in (it.get("inputs") or []) if "Arc<" in t]
-    chk.instance("C18/R6", "the reply future owns the table and the receive handle (%d Arc parameters, %d Weak)" % (len(shared), len(weak)), it["qdef"], loc_of(it.get("sp")),
-                 holds=len(shared) >= 2 and not weak, key="C18/R6 Session::recv holds-shared-state-weakly")
+    # .. whether recv is handed the Arcs or borrows them from the async block that owns them: nowhere on the way a Weak
+    for name, b in sorted(fx.mir.items()):
+        if b.crate == "netconf" and name.startswith((SESSION + "::recv", SESSION + "::rpc")) and "::tests::" not in name:
+            weak += [b.local_ty(l) for l in range(len(b.locals)) if "sync::Weak<" in b.local_ty(l) or "rc::Weak<" in b.local_ty(l)]
+    chk.instance("C18/R6", "the reply future holds the table and the receive handle strongly (no Weak on the way from the session to recv)", it["qdef"], loc_of(it.get("sp")),
+                 holds=not weak, key="C18/R6 Session::recv holds-shared-state-weakly", detail=None if not weak else str(sorted(set(weak)))[:120])
     from .c15 import _Rename
     from . import c05
     c05.r2_own_slot(_Rename(chk, "C05/R2", "C18/R6:C05/R2"), fx)
